@@ -543,6 +543,55 @@ func c16(c *Ctx) {
 			r.Break("C16.V1: only %d text converters found in package config", nConv)
 		}
 	}
+	// V2b: the revision that is compared with the one in force is the client's: what handlePostConfig passes to applyConfig is
+	// computed without looking at the current revision (a value derived from it passes the gate trivially)
+	if hpc := c.P.Func("api.(*HTTP).handlePostConfig"); hpc != nil && hpc.Body() != nil {
+		hi := hpc.Info()
+		cr := c.P.Func("api.(*HTTP).configRevision")
+		ac := c.P.Func("api.(*HTTP).applyConfig")
+		n := 0
+		for _, call := range astx.Calls(hpc.Body(), true) {
+			if ac == nil || astx.Callee(hi, call) != ac.Obj || len(call.Args) < 1 {
+				continue
+			}
+			n++
+			src := call.Args[0]
+			if d := uniqueDef(hi, hpc.Node(), src); d != nil {
+				src = d
+			}
+			// functions of package api involved in computing it
+			bad := ""
+			var visit func(e ast.Node, info *types.Info, depth int)
+			seen := map[*load.FuncInfo]bool{}
+			visit = func(e ast.Node, info *types.Info, depth int) {
+				if depth > 4 {
+					return
+				}
+				for _, c2 := range astx.Calls(e, true) {
+					fn := astx.Callee(info, c2)
+					if fn == nil {
+						continue
+					}
+					if cr != nil && fn == cr.Obj {
+						bad = "api.configRevision()"
+					}
+					if h := c.P.FuncOf(fn); h != nil && h.Body() != nil && load.ShortPkg(h.Pkg.PkgPath) == "api" && !seen[h] {
+						seen[h] = true
+						if mentionsField(h.Info(), h.Body(), revField) {
+							bad = "Config.Revision (in " + shortName(h) + ")"
+						}
+						visit(h.Body(), h.Info(), depth+1)
+					}
+				}
+			}
+			visit(src, hi, 0)
+			r.Check(bad == "", "C16.V2", hpc.Name(), "the revision compared with the one in force comes from the request alone", c.P.Pos(call.Pos()), "no use of the current revision in computing it",
+				"the revision handed to the gate is computed with the help of "+bad+": a request that does not name the revision in force (e.g. 'If-Match: *') is given the current one and passes — a stale edit overwrites another administrator's update")
+		}
+		if n == 0 {
+			r.Break("C16.V2: handlePostConfig does not call applyConfig")
+		}
+	}
 	// V6: readers use the configuration in force, not a private copy or summary of it
 	if fi := c.MustFunc("api.(*HTTP).handleGetConfig"); fi != nil {
 		info := fi.Info()
